@@ -123,15 +123,17 @@ theorem fresh_has_no_file (k j : Nat) (hk : k < 4) (hj : j < 112) :
     contents, any sizes from 0 to beyond a side, any end-of-side markers, missing files, refusals:
     `--create` returns 0 and writes the archive of a consistent image `img`; `--extract` of that
     archive (either verbosity, with or without `--into`) returns 0 and writes exactly the files of
-    `img`, side after side in catalog order, as `target/sideN/NAME.EXT`; and every file of `img` is
+    `img`, side after side in catalog order, as `target/sideN/NAME.EXT` — provided none of those
+    paths is the archive itself, which the extractor refuses to overwrite (C20); and every file of `img` is
     the exact data of one of the sources, under the entry the tool writes for that source. -/
 theorem create_then_extract (fl : Flavour) (w : Tape.World) (verbose : Bool) (archive : Str) (srcs : List Str)
     (hs : ∀ src ∈ srcs, OrdinarySrc src) (verbose2 : Bool) (into : Option Str) :
     ∃ img, ImgOk img
       ∧ (create fl w verbose archive srcs).status = .ret 0
       ∧ (create fl w verbose archive srcs).writes = [(archive, save fl img)]
-      ∧ (extract fl verbose2 archive into (save fl img)).status = .ret 0
-      ∧ (extract fl verbose2 archive into (save fl img)).writes = sidesFiles (Tape.targetDirOf archive into) img 0
+      ∧ ((∀ p ∈ sidesFiles (Tape.targetDirOf archive into) img 0, samePath p.1 archive = false) →
+          (extract fl verbose2 archive into (save fl img)).status = .ret 0
+          ∧ (extract fl verbose2 archive into (save fl img)).writes = sidesFiles (Tape.targetDirOf archive into) img 0)
       ∧ (∀ k j r c, k < 4 → j < 112 → imgFileAt img k j = some (r, c) →
           ∃ src ∈ srcs, ∃ name ext kind flag, Offers w src name ext kind flag c ∧ IsRecordOf r name ext kind flag c.length) := by
   obtain ⟨st, hst, hok, _, hof⟩ := performCore_files w verbose _ srcs fresh_img_ok (fun s h => (hs s h).1)
@@ -141,8 +143,7 @@ theorem create_then_extract (fl : Flavour) (w : Tape.World) (verbose : Bool) (ar
     have := fresh_has_no_file k j hk hj
     unfold imgFileAt at this
     rw [this] at hf; cases hf
-  obtain ⟨hx1, hx2⟩ := extract_consistent fl verbose2 archive into st.img hok hnice
-  refine ⟨st.img, hok, ?_, ?_, hx1, hx2, ?_⟩
+  refine ⟨st.img, hok, ?_, ?_, fun hk => extract_consistent fl verbose2 archive into st.img hok hnice hk, ?_⟩
   · unfold create performOn; rw [if_neg (by simp), hst]
   · unfold create performOn; rw [if_neg (by simp), hst]
   · intro k j r c hk hj hf
@@ -180,13 +181,14 @@ theorem small_batch_roundtrip (fl : Flavour) (w : Tape.World) (verbose : Bool) (
       ∧ (create fl w verbose archive (items.map (·.1))).writes = [(archive, save fl img)]
       ∧ fileCount img = items.length
       ∧ (∀ k, 1 ≤ k → k < 4 → img.getD k [] = freshSide)
-      ∧ (extract fl verbose2 archive into (save fl img)).status = .ret 0
-      ∧ (extract fl verbose2 archive into (save fl img)).writes.length = items.length
+      ∧ ((∀ p ∈ sidesFiles (Tape.targetDirOf archive into) img 0, samePath p.1 archive = false) →
+          (extract fl verbose2 archive into (save fl img)).status = .ret 0
+          ∧ (extract fl verbose2 archive into (save fl img)).writes.length = items.length)
       ∧ (∀ k j r c, k < 4 → j < 112 → imgFileAt img k j = some (r, c) →
           ∃ src ∈ items.map (·.1), ∃ name ext kind flag, Offers w src name ext kind flag c ∧ IsRecordOf r name ext kind flag c.length) := by
   obtain ⟨st, hst, hok, hcount, hsides⟩ := create_small_batch w verbose items hall hB hS
   have hclean : ∀ s ∈ items.map (·.1), CleanSrc s := fun s hs => by
-    obtain ⟨p, hp, rfl⟩ := List.mem_map.mp hs; exact (hall p hp).2.2.2.2
+    obtain ⟨p, hp, rfl⟩ := List.mem_map.mp hs; exact (hall p hp).2.2.2.2.1
   have hords : ∀ s ∈ items.map (·.1), OrdinarySrc s := fun s hs => by
     obtain ⟨p, hp, rfl⟩ := List.mem_map.mp hs; exact hord p hp
   obtain ⟨st2, hst2, _, _, hof⟩ := performCore_files w verbose _ (items.map (·.1)) fresh_img_ok hclean
@@ -198,11 +200,12 @@ theorem small_batch_roundtrip (fl : Flavour) (w : Tape.World) (verbose : Bool) (
     have := fresh_no_file k j hk hj
     unfold imgFileAt at this
     rw [this] at hf; cases hf
-  obtain ⟨hx1, hx2⟩ := extract_consistent fl verbose2 archive into st.img hok hnice
-  refine ⟨st.img, hok, ?_, ?_, hcount, hsides, hx1, ?_, ?_⟩
+  refine ⟨st.img, hok, ?_, ?_, hcount, hsides, ?_, ?_⟩
   · unfold create performOn; rw [if_neg (by simp), hst]
   · unfold create performOn; rw [if_neg (by simp), hst]
-  · rw [hx2, ← fileCount_eq_extracted st.img hok.1, hcount]
+  · intro hk
+    obtain ⟨hx1, hx2⟩ := extract_consistent fl verbose2 archive into st.img hok hnice hk
+    exact ⟨hx1, by rw [hx2, ← fileCount_eq_extracted st.img hok.1, hcount]⟩
   · intro k j r c hk hj hf
     rcases hof k j r c hk hj hf with h | h
     · rw [fresh_no_file k j hk hj] at h; cases h
@@ -213,17 +216,19 @@ theorem small_batch_roundtrip (fl : Flavour) (w : Tape.World) (verbose : Bool) (
     (at most 157 blocks, at most 112 files), the image `--create` writes holds source number `i` in
     catalog entry `i` of side 0 — so the listing shows the files in the order given — and `--extract`
     writes exactly `side0/NAME.EXT` for each source, in the order of the command line, with exactly
-    its data (`diskName`: the name read back from the entry bytes written for the source). -/
+    its data (`diskName`: the name read back from the entry bytes written for the source); `hk`: none
+    of these paths is the archive itself, which the extractor refuses to overwrite (C20). -/
 theorem small_batch_in_order (fl : Flavour) (w : Tape.World) (verbose : Bool) (archive : Str) (items : List (Str × Bytes))
     (hall : ∀ p ∈ items, Storable w p.1 p.2) (hord : ∀ p ∈ items, OrdinarySrc p.1)
-    (hB : batchBlocks items ≤ 157) (hS : items.length ≤ 112) (verbose2 : Bool) (into : Option Str) :
+    (hB : batchBlocks items ≤ 157) (hS : items.length ≤ 112) (verbose2 : Bool) (into : Option Str)
+    (hk : ∀ p ∈ items, samePath (pathJoin (pathJoin (Tape.targetDirOf archive into) (Tape.str "side" ++ digits 0)) (diskName p.1)) archive = false) :
     ∃ img, ImgOk img
       ∧ (create fl w verbose archive (items.map (·.1))).writes = [(archive, save fl img)]
       ∧ (∀ i, (hi : i < items.length) → ∃ r, imgFileAt img 0 i = some (r, (items[i]).2) ∧ RecOf (items[i]).1 r (items[i]).2.length)
       ∧ (extract fl verbose2 archive into (save fl img)).status = .ret 0
       ∧ (extract fl verbose2 archive into (save fl img)).writes
           = items.map (fun p => (pathJoin (pathJoin (Tape.targetDirOf archive into) (Tape.str "side" ++ digits 0)) (diskName p.1), p.2)) :=
-  Disk.small_batch_in_order fl w verbose archive items hall hord hB hS verbose2 into
+  Disk.small_batch_in_order fl w verbose archive items hall hord hB hS verbose2 into hk
 
 /-- the name a source is extracted under, on examples: upper case, 8.3, the `,a` option dropped -/
 example : diskName (Tape.str "dir.d/prog.bas,a") = Tape.str "PROG.BAS" ∧ diskName (Tape.str "noext") = Tape.str "NOEXT."
